@@ -84,6 +84,9 @@ def rule_layout_eval(chk, cl, gl):
     }
     structs["{ {float2; float}; float4 }"] = m.struct([structs["{float2; float}"], F4])
     structs["{float3[2]; float}"] = m.struct([m.array(F3, 2), F1])
+    structs["{}"] = m.struct([])
+    structs["{ {}; float3 }"] = m.struct([structs["{}"], F3])
+    structs["{ { {} } }"] = m.struct([m.struct([structs["{}"]])])
     types.update(structs)
     probe = m.layout(F1, "Metal")
     if probe is not None and probe[0] == "unreadable":
